@@ -268,9 +268,18 @@ def bytesOf : BRes → List Nat
   | .panic => []
   | .hang => []
 
+/-- A read that delivered nothing and reported an error (or did not return). -/
+def Failed : BRes → Prop
+  | .done bs e _ _ => bs = [] ∧ e ≠ none
+  | .panic => True
+  | .hang => True
+
+macro "failed" : tactic =>
+  `(tactic| first | exact ⟨rfl, by intro h; cases h⟩ | exact True.intro)
+
 /-- Outcome of the frame-finding loop relative to the state `s` it started from. -/
 def NextOK (s : St) : Option BRes × St → Prop
-  | (some r, _) => bytesOf r = []
+  | (some r, _) => Failed r
   | (none, s2) => s2.dead = false ∧ Bytes s2.data ∧ 0 ≤ s2.lim ∧ window s2 = window s
 
 theorem NextOK.mono {s s' : St} (hw : window s' = window s) : ∀ r, NextOK s' r → NextOK s r
@@ -281,7 +290,7 @@ theorem bodyNextFrame_window (H : Huff) (tbl : List (List Nat × List Nat)) (b :
     ∀ (fuel : Nat) (s : St), s.dead = false → Bytes s.data → NextOK s (bodyNextFrame H tbl b fuel s) := by
   intro fuel
   induction fuel with
-  | zero => intro s _ _; exact rfl
+  | zero => intro s _ _; failed
   | succ f ih =>
     intro s hd hb
     unfold bodyNextFrame
@@ -294,7 +303,7 @@ theorem bodyNextFrame_window (H : Huff) (tbl : List (List Nat × List Nat)) (b :
         obtain ⟨e, s', he⟩ := hs
         rw [he]
         simp only
-        split <;> exact rfl
+        split <;> failed
       | some p =>
         obtain ⟨ft, sz, rest⟩ := p
         rw [hf] at hs
@@ -307,7 +316,7 @@ theorem bodyNextFrame_window (H : Huff) (tbl : List (List Nat × List Nat)) (b :
         by_cases h0 : ft = 0
         · simp only [h0, if_true]
           split
-          · exact rfl
+          · failed
           · refine ⟨hd, hrb, by simp, ?_⟩
             rw [hwin, hdb]
             have : ¬ ((sz : Int) < 0) := by omega
@@ -316,11 +325,11 @@ theorem bodyNextFrame_window (H : Huff) (tbl : List (List Nat × List Nat)) (b :
           by_cases h1 : ft = 1
           · simp only [h1, if_true]
             repeat' split
-            all_goals exact rfl
+            all_goals failed
           · simp only [h1, if_false]
             unfold discardUnknownFrame
             by_cases hk : knownFrameType ft = true
-            · simp only [hk, if_true]; exact rfl
+            · simp only [hk, if_true]; failed
             · simp only [hk, Bool.false_eq_true, if_false]
               cases hdf : discardFrame { s with data := rest, primed := true, lim := (sz : Int) } with
               | ok u s2 =>
@@ -331,9 +340,9 @@ theorem bodyNextFrame_window (H : Huff) (tbl : List (List Nat × List Nat)) (b :
                 refine NextOK.mono ?_ _ (ih s2 hi.2.2.2 hb2)
                 rw [hwin, hdb]
                 simp [window, hi.2.2.1, hi.2.1, h0, hk, hi.1]
-              | err e s2 => exact rfl
-              | panic => exact rfl
-              | hang => exact rfl
+              | err e s2 => failed
+              | panic => failed
+              | hang => failed
     · simp only [hl, if_false]
       exact ⟨hd, hb, by omega, rfl⟩
 
@@ -359,18 +368,49 @@ theorem window_inside (s : St) (h : 0 ≤ s.lim) :
   have : ¬ s.lim < 0 := by omega
   simp [window, this]
 
+/-! `bodyRead` restated with its two inline pieces named (definitionally the same function). -/
+
+def afterEnd (b : Body) (s : St) : Option BRes × St :=
+  if s.lim = 0 then
+    match endFrame s with
+    | .ok _ s1 => (none, s1)
+    | .err e s1 => (some (bodyFail b s1 e), s1)
+    | .panic => (some .panic, s)
+    | .hang => (some .hang, s)
+  else (none, s)
+
+def bodyTail (b : Body) (s2 : St) (k' : Nat) : BRes :=
+  match NetVerif.Model.H3Stream.read s2 k' with
+  | .ok (bs, eof) s3 =>
+    let b' : Body := { b with remain := if b.remain > 0 then b.remain - bs.length else b.remain }
+    if eof then .done bs (some .eof) { b' with err := some .eof } s3 else .done bs none b' s3
+  | .err e s3 => .done [] (some e) { b with err := some e } s3
+  | .panic => .panic
+  | .hang => .hang
+
+def bodyRead' (H : Huff) (tbl : List (List Nat × List Nat)) (b : Body) (s : St) (k : Nat) : BRes :=
+  match b.err with
+  | some e => .done [] (some e) b s
+  | none =>
+    match afterEnd b s with
+    | (some r, _) => r
+    | (none, s1) =>
+      match bodyNextFrame H tbl b (s1.data.length + 2) s1 with
+      | (some r, _) => r
+      | (none, s2) => bodyTail b s2 (if (k : Int) > s2.lim then s2.lim.toNat else k)
+
+theorem bodyRead_eq (H : Huff) (tbl : List (List Nat × List Nat)) (b : Body) (s : St) (k : Nat) :
+    bodyRead H tbl b s k = bodyRead' H tbl b s k := by
+  unfold bodyRead bodyRead' afterEnd bodyTail
+  rfl
+
 def AfterOK (s : St) : Option BRes × St → Prop
-  | (some r, _) => bytesOf r = []
+  | (some r, _) => Failed r
   | (none, s1) => s1.dead = false ∧ Bytes s1.data ∧ window s1 = window s
 
 theorem afterEnd_ok (b : Body) (s : St) (hd : s.dead = false) (hb : Bytes s.data) :
-    AfterOK s (if s.lim = 0 then
-        match endFrame s with
-        | .ok _ s1 => (none, s1)
-        | .err e s1 => (some (bodyFail b s1 e), s1)
-        | .panic => (some .panic, s)
-        | .hang => (some .hang, s)
-      else (none, s)) := by
+    AfterOK s (afterEnd b s) := by
+  unfold afterEnd
   by_cases h0 : s.lim = 0
   · simp only [h0, if_true, endFrame, ne_eq, not_true_eq_false, if_false]
     refine ⟨hd, hb, ?_⟩
@@ -379,19 +419,24 @@ theorem afterEnd_ok (b : Body) (s : St) (hd : s.dead = false) (hb : Bytes s.data
   · simp only [h0, if_false]
     exact ⟨hd, hb, rfl⟩
 
+/-- What one read may report. -/
+def ReadOK (s : St) : BRes → Prop
+  | .done bs e _ s' =>
+    bs <+: window s ∧ (e = none → window s = bs ++ window s' ∧ s'.dead = false ∧ Bytes s'.data)
+  | .panic => True
+  | .hang => True
+
+theorem readOK_of_failed (s : St) (r : BRes) (h : Failed r) : ReadOK s r := by
+  cases r with
+  | done bs e b' s' =>
+    obtain ⟨rfl, hne⟩ := h
+    exact ⟨List.nil_prefix, fun he => absurd he hne⟩
+  | panic => trivial
+  | hang => trivial
+
 theorem bodyTail_window (b : Body) (s2 : St) (k' : Nat) (hd : s2.dead = false) (hb : Bytes s2.data)
-    (hl : 0 ≤ s2.lim) (hk : (k' : Int) ≤ s2.lim) :
-    match (match NetVerif.Model.H3Stream.read s2 k' with
-        | .ok (bs, eof) s3 =>
-          let b' : Body := { b with remain := if b.remain > 0 then b.remain - bs.length else b.remain }
-          if eof then BRes.done bs (some .eof) { b' with err := some .eof } s3 else .done bs none b' s3
-        | .err e s3 => .done [] (some e) { b with err := some e } s3
-        | .panic => .panic
-        | .hang => .hang) with
-    | .done bs e _ s' =>
-      bs <+: window s2 ∧ (e = none → window s2 = bs ++ window s' ∧ s'.dead = false ∧ Bytes s'.data)
-    | .panic => True
-    | .hang => True := by
+    (hl : 0 ≤ s2.lim) : ReadOK s2 (bodyTail b s2 k') := by
+  unfold bodyTail
   cases hr : NetVerif.Model.H3Stream.read s2 k' with
   | ok r s3 =>
     obtain ⟨bs, eof⟩ := r
@@ -416,46 +461,69 @@ theorem bodyTail_window (b : Body) (s2 : St) (k' : Nat) (hd : s2.dead = false) (
   | hang => trivial
 
 /-- One `bodyReader.Read`: the bytes put into the caller's buffer are a prefix of `window`, and
-after a successful read the rest of `window` is exactly what the new state may still deliver. -/
+after a read without error the rest of `window` is exactly what the new state may still deliver. -/
 theorem bodyRead_window (H : Huff) (tbl : List (List Nat × List Nat)) (b : Body) (s : St) (k : Nat)
-    (hd : s.dead = false) (hb : Bytes s.data) :
-    match bodyRead H tbl b s k with
-    | .done bs e _ s' =>
-      bs <+: window s ∧ (e = none → window s = bs ++ window s' ∧ s'.dead = false ∧ Bytes s'.data)
-    | .panic => True
-    | .hang => True := by
-  unfold bodyRead
+    (hd : s.dead = false) (hb : Bytes s.data) : ReadOK s (bodyRead H tbl b s k) := by
+  rw [bodyRead_eq]
+  unfold bodyRead'
   cases hbe : b.err with
   | some e0 => exact ⟨List.nil_prefix, by intro h; cases h⟩
   | none =>
-    dsimp only
+    simp only
     have hae := afterEnd_ok b s hd hb
-    split
-    · rename_i r s' heq
-      have hr : bytesOf r = [] := by
-        show AfterOK s (some r, s'); rw [← heq]; exact hae
+    cases hA : afterEnd b s with
+    | mk r s1 =>
+      rw [hA] at hae
       cases r with
-      | done bs e b' s'' => simp [bytesOf] at hr; subst hr; sorry
-      | panic => trivial
-      | hang => trivial
-    · rename_i s1 heq
-      have h1 : s1.dead = false ∧ Bytes s1.data ∧ window s1 = window s := by
-        show AfterOK s (none, s1); rw [← heq]; exact hae
-      have hn := bodyNextFrame_window H tbl b (s1.data.length + 2) s1 h1.1 h1.2.1
-      split
-      · rename_i r s' heq2
-        have hr : bytesOf r = [] := by
-          show NextOK s1 (some r, s'); rw [← heq2]; exact hn
-        cases r with
-        | done bs e b' s'' => simp [bytesOf] at hr; subst hr; sorry
-        | panic => trivial
-        | hang => trivial
-      · rename_i s2 heq2
-        have h2 : s2.dead = false ∧ Bytes s2.data ∧ 0 ≤ s2.lim ∧ window s2 = window s1 := by
-          show NextOK s1 (none, s2); rw [← heq2]; exact hn
-        have ht := bodyTail_window b s2 (if (k : Int) > s2.lim then s2.lim.toNat else k) h2.1 h2.2.1 h2.2.2.1
-          (by split <;> omega)
-        rw [← h1.2.2, ← h2.2.2.2]
-        exact ht
+      | some r => exact readOK_of_failed s r hae
+      | none =>
+        simp only
+        obtain ⟨h1d, h1b, h1w⟩ := hae
+        have hn := bodyNextFrame_window H tbl b (s1.data.length + 2) s1 h1d h1b
+        cases hN : bodyNextFrame H tbl b (s1.data.length + 2) s1 with
+        | mk r2 s2 =>
+          rw [hN] at hn
+          cases r2 with
+          | some r2 => exact readOK_of_failed s r2 hn
+          | none =>
+            simp only
+            obtain ⟨h2d, h2b, h2l, h2w⟩ := hn
+            have ht := bodyTail_window b s2 (if (k : Int) > s2.lim then s2.lim.toNat else k) h2d h2b h2l
+            have hw : window s2 = window s := h2w.trans h1w
+            revert ht
+            cases bodyTail b s2 (if (k : Int) > s2.lim then s2.lim.toNat else k) with
+            | done bs e b' s' => intro ht; exact ⟨hw ▸ ht.1, fun he => hw ▸ ht.2 he⟩
+            | panic => intro _; trivial
+            | hang => intro _; trivial
+
+/-- **End to end**: whatever bytes the peer sends, however the reads are sized and however the
+body ends, the bytes a `bodyReader` hands out are a prefix of `window` — for a stream that is
+between frames, a prefix of the concatenated DATA payloads `dataBytes`. -/
+theorem bodyDrain_window (H : Huff) (tbl : List (List Nat × List Nat)) (k : Nat) :
+    ∀ (fuel : Nat) (b : Body) (s : St) (acc : List Nat), s.dead = false → Bytes s.data →
+    ∃ out, (bodyDrain H tbl k fuel b s acc).1 = acc ++ out ∧ out <+: window s := by
+  intro fuel
+  induction fuel with
+  | zero => intro b s acc _ _; exact ⟨[], by simp [bodyDrain], List.nil_prefix⟩
+  | succ f ih =>
+    intro b s acc hd hb
+    unfold bodyDrain
+    have hr := bodyRead_window H tbl b s k hd hb
+    revert hr
+    cases bodyRead H tbl b s k with
+    | done bs e b' s' =>
+      intro hr
+      obtain ⟨hpre, hnone⟩ := hr
+      cases e with
+      | none =>
+        obtain ⟨hw, hd', hb'⟩ := hnone rfl
+        obtain ⟨out, ho, hp⟩ := ih b' s' (acc ++ bs) hd' hb'
+        refine ⟨bs ++ out, by simp only; rw [ho, List.append_assoc], ?_⟩
+        rw [hw]
+        exact (List.prefix_append_right_inj bs).mpr hp
+      | some e =>
+        cases e <;> exact ⟨bs, rfl, hpre⟩
+    | panic => intro _; exact ⟨[], by simp, List.nil_prefix⟩
+    | hang => intro _; exact ⟨[], by simp, List.nil_prefix⟩
 
 end NetVerif.Proofs.H3BodySpec
